@@ -228,7 +228,8 @@ def _call_create(pol: Polarimetry, cls: ClassInfo, angles: Any, stokes: str) -> 
     if r is None or not isinstance(r.node, ast.FunctionDef):
         raise AnalysisError(f'anchor vanished: {cls.name}.create')
     kwargs = {'angles': angles} if angles is not None else {}
-    return interp.call_function(r.node, [ClassRef(cls), Opaque('shape'), Opaque('dtype'), stokes], kwargs, owner=r.owner)
+    # (the dtype requested from the factory is the dtype of the Stokes data: a parameter converted to it is recorded as a coefficient cast)
+    return interp.call_function(r.node, [ClassRef(cls), Opaque('shape'), Opaque('data.dtype'), stokes], kwargs, owner=r.owner)
 
 
 def _same_structure(op: Any, kind: ClassInfo) -> bool:
@@ -256,7 +257,12 @@ def _factories(ck, pol: Polarimetry, kind: ClassInfo, L: str, tag: str, a: Poly)
         what = f'{name}.create'
         inst = f'{tag} {"with" if ang is not None else "without"} angles'
         try:
+            before = len(pol.interp.coefficient_casts)
             op = _call_create(pol, cls, ang, L)
+            casts = pol.interp.coefficient_casts[before:]
+            ck.expect('M7', not casts, what, 'the angles reach the operators as given (no conversion to the dtype of the Stokes data)',
+                      f'the factory converts the angles to the dtype requested for the Stokes data ({casts[0] if casts else ""}): with single-precision (or integer) data and double-precision angles '
+                      'the operators rotate by the rounded angles, not by the given ones', instance=inst + ' angles as given', semantic=True)
             if not isinstance(op, (SymObj, Chain)):
                 ck.bad('M7', what, f'the factory returns {type(op).__name__}, not an operator', instance=inst)
                 continue
